@@ -23,8 +23,9 @@ type lcOp struct {
 }
 
 type lcScenario struct {
-	Tag uint64 `json:"tag"`
-	Ops []lcOp `json:"ops"`
+	Tag      uint64 `json:"tag"`
+	Ops      []lcOp `json:"ops"`
+	LeafMode string `json:"leaf_mode,omitempty"` // World.SetLeafMode
 }
 
 // genRem draws remember indexes for a block under a mode.
@@ -218,6 +219,10 @@ func init() {
 						prof = gen.Tiny
 					}
 					s = genLCScenario(c.Rng, uint64(c.Seed)<<32|uint64(c.Index), undo, prof)
+					// ("collide" - a leaf equal to an internal node's hash - is not used here: the
+					// cached-proof code identifies nodes by hash, the unchanged tree itself loses and
+					// misplaces leaves under such inputs, and the property excludes hash collisions)
+					s.LeafMode = map[int]string{4: "prefix", 5: "readd"}[c.Index%6]
 				}
 				lcCheck(c, s, undo)
 			},
@@ -319,6 +324,10 @@ type lcSnap struct {
 func lcCheck(c *core.Ctx, s lcScenario, judgeUndo bool) {
 	c.SetScenario(s)
 	w := NewWorld(s.Tag, nil)
+	w.SetLeafMode(s.LeafMode)
+	if s.LeafMode != "" {
+		c.Count("runs_with_leaf_mode_"+s.LeafMode, 1)
+	}
 	var proof u.Proof
 	var hashes []Hash
 	want := map[Hash]bool{}
